@@ -57,6 +57,8 @@ class Cfg:
     raw_iter: bool = False                 # Iter/Map outside an immediately consuming apply
     all_options: bool = True
     total_fns: bool = False        # only user callables that cannot raise (C10/C11: "bodies total")
+    map_weight: float = 0.5
+    self_map: float = 0.35         # Map(e, {'L': Option('L')}): the iterable reads the key it maps
 
 
 class G:
@@ -255,7 +257,7 @@ class G:
             choices += [("apply", 1.2), ("template", 0.8 if cfg.templates else 0)]
         if ty == "any":
             choices += [("dataset", 2.0 if cfg.datasets else 0), ("collection", 1.0), ("funapp", 0.8),
-                        ("map", 0.5 if cfg.maps else 0), ("all", 0.2 if cfg.all_options else 0),
+                        ("map", cfg.map_weight if cfg.maps else 0), ("all", 0.2 if cfg.all_options else 0),
                         ("pipeline", 0.5), ("dictc", 0.3)]
         if ty == "list":
             choices += [("collection_list", 1.0)]
@@ -353,10 +355,24 @@ class G:
             self.count("map")
             keys = self.rng.sample(["A", "B", "S.X", "C"], self.rng.randint(1, 2))
             # sometimes the iterable reads the very key it maps (Map(e, {'A': Option('A')}): fan out over a list option)
-            its = [(k, self.expr("list", min(d, 1))) for k in keys]
-            if self.chance(0.35) and self.cfg.lists:
+            import dataclasses
+            saved0 = self.cfg
+            self.cfg = dataclasses.replace(saved0, maps=False)
+            try:
+                its = [(k, self.expr("list", min(d, 1))) for k in keys]
+            finally:
+                self.cfg = saved0
+            if self.chance(self.cfg.self_map) and self.cfg.lists:
                 its.append(("L", P.option("L")))     # well-typed: L always holds a list
-            m = P.map(self.expr("any", d), its)
+            # no Map inside a Map: the inner one would iterate over what the outer one assigns (ill-typed)
+            import dataclasses
+            saved = self.cfg
+            self.cfg = dataclasses.replace(saved, maps=False)
+            try:
+                inner = self.expr("any", d)
+            finally:
+                self.cfg = saved
+            m = P.map(inner, its)
             return P.apply(m, P.fnvalue("py:list"))
         if kind == "all":
             self.count("all")
